@@ -286,14 +286,11 @@ theorem run_ri_tail (f x : Nat) (e : TokEntry) (s : St)
     (he : s.ids x = some e)
     (hcache : x ≠ 0 → s.cache x = some false)
     (htl : s.tl x = none → s.cache x = none) :
-    run ((lookup (f+1) x true).bind fun oe =>
-        match oe with
-        | none => Prog.ret (Except.ok ())
-        | some e => (riMark x e).bind fun _ => (riBody x e true (orphanLoop (f+1))).bindE (riFinish x)) s
+    run ((lookup (f+1) x true).bindE (riAfterLookup x true (orphanLoop (f+1)))) s
       = (.ok (), purge1 x e s) := by
-  rw [run_bind, run_lookup f x true s (fun _ _ h0 => hcache h0)]
-  simp only [lkRes, he, Bool.not_true, Bool.and_false, Bool.false_eq_true, if_false, run_bind, run_riMark,
-    run_bindE]
+  rw [run_bindE, run_lookup f x true s (fun _ _ h0 => hcache h0)]
+  simp only [lkRes, he, Bool.not_true, Bool.and_false, Bool.false_eq_true, if_false, riAfterLookup, bind_eq,
+    run_bind, run_riMark, run_bindE]
   cases hm : e.marked with
   | true =>
     simp only [if_true]
